@@ -66,6 +66,9 @@ func prototypes(c *config.Configuration, srv string) {
 					"assertions":        map[string]any{"audience": []any{audOK}},
 				}
 			}
+			if d.Tpl == "header" { // one JWKS url for all tenants, the tenant is named by a request header
+				m.Config["jwks_endpoint"] = map[string]any{"url": base + "/jwks", "headers": map[string]any{"X-Tenant": "{{ .TokenIssuer }}"}}
+			}
 			if d.ID != "jwt_fb" { // jwt_fb keeps the default key cache (10m), all others fetch every time
 				m.Config["cache_ttl"] = "0s"
 			}
@@ -82,6 +85,12 @@ func prototypes(c *config.Configuration, srv string) {
 				delete(m.Config, "introspection_endpoint")
 				m.Config["metadata_endpoint"] = metadataEndpoint(base + `/meta/{{ .TokenIssuer | default "` + issOK + `" }}/.well-known/openid-configuration`)
 				m.Config["assertions"] = map[string]any{"audience": []any{audOK}}
+			}
+			switch d.Tpl { // .TokenIssuer is only available for tokens in JWT format: all others have no tenant, hence no endpoint
+			case "url":
+				m.Config["introspection_endpoint"] = map[string]any{"url": base + "/introspect/{{ .TokenIssuer }}"}
+			case "header":
+				m.Config["introspection_endpoint"] = map[string]any{"url": base + "/introspect", "headers": map[string]any{"X-Tenant": "{{ .TokenIssuer }}"}}
 			}
 			if d.Custom {
 				m.Config["token_source"] = srcList(d.Sources)
@@ -145,6 +154,64 @@ type observed struct {
 
 var reqCounter, chunkedBodies, noisyRequests atomic.Int64
 
+// entry is one entry point of heimdall serving the rule set: the HTTP decision service or the Envoy ext_authz gRPC
+// decision service. Both run the same prototypes and rules in an instance of their own.
+type entry struct {
+	Name string
+	send func(w wire) observed
+}
+
+const (
+	entryHTTP  = "decision-http"
+	entryEnvoy = "decision-envoy-grpc"
+)
+
+func trace(pr *app.Probes, id string) []traceStep {
+	var out []traceStep
+	for _, e := range pr.Take(id) {
+		if e.Stage == "authn" {
+			out = append(out, traceStep{e.Mech, e.Outcome})
+		}
+	}
+	return out
+}
+
+// sendEnvoy presents the same logical request as a CheckRequest, the way Envoy does: lower-case header names, one value
+// per header name (of a Content-Type sent twice the first line), path and query in separate fields, the body buffered
+// (as text, or as bytes where the HTTP entry point gets it chunked: pack_as_bytes).
+func sendEnvoy(ev *app.Envoy, pr *app.Probes, w wire) observed {
+	id := fmt.Sprintf("c04-%d", reqCounter.Add(1))
+	hdrs := map[string]string{app.HdrReq: id}
+	for k, v := range w.Headers {
+		hdrs[k] = v
+	}
+	if len(w.ContentType) > 0 {
+		hdrs["Content-Type"] = w.ContentType[0]
+	}
+	var body string
+	var raw []byte
+	if w.Chunked {
+		raw = []byte(w.Body)
+	} else {
+		body = w.Body
+	}
+	res := ev.Check(w.Method, "http", "svc.test", w.Target, hdrs, body, raw)
+	var o observed
+	switch {
+	case res.RPCErr != "":
+		o.Transport, o.Status = res.RPCErr, -1
+	case res.OK:
+		o.Status, o.Sub = http.StatusOK, res.Header("X-Sub")
+	default:
+		o.Status = res.Status
+		if o.Status == 0 || o.Status == http.StatusOK {
+			o.Status = 1000 + res.Code // denied without a usable HTTP status: still "authentication failed"
+		}
+	}
+	o.Trace = trace(pr, id)
+	return o
+}
+
 func send(cl *http.Client, a *app.App, pr *app.Probes, w wire) observed {
 	id := fmt.Sprintf("c04-%d", reqCounter.Add(1))
 	var body io.Reader
@@ -185,11 +252,7 @@ func send(cl *http.Client, a *app.App, pr *app.Probes, w wire) observed {
 	if len(w.Noise) > 0 {
 		noisyRequests.Add(1)
 	}
-	for _, e := range pr.Take(id) {
-		if e.Stage == "authn" {
-			o.Trace = append(o.Trace, traceStep{e.Mech, e.Outcome})
-		}
-	}
+	o.Trace = trace(pr, id)
 	return o
 }
 
@@ -210,7 +273,10 @@ type c04Case struct {
 	Wire     wire       `json:"wire"`
 	Views    []stepView `json:"oracle_per_authenticator"`
 	Allowed  []outcome  `json:"allowed_outcomes"`
+	Entry    string     `json:"entry_point"`
 	Observed observed   `json:"observed"`
+	// OtherEntry: what the HTTP decision service answered to the same request (cases of the Envoy entry point)
+	OtherEntry *observed `json:"observed_at_http_decision_service,omitempty"`
 }
 
 func (o observed) ids() []string {
@@ -336,15 +402,22 @@ func TestC04(t *testing.T) {
 	r := core.Begin("C04", "exploration")
 	r.Rule("All 258 type-level chains of length <=3 over {anonymous, unauthorized, basic_auth, jwt, generic, oauth2_introspection}, each with sampled variant assignments " +
 		"(prototype with/without allow_fallback_on_error, default vs. explicitly configured credential sources, live vs. refusing endpoint, jwks/introspection endpoint " +
-		"configured vs. discovered through a metadata_endpoint templated with the token issuer; rule-level override unset/false/true; " +
+		"configured vs. discovered through a metadata_endpoint templated with the token issuer, jwks/introspection endpoint url or request header templated with the token issuer; " +
+		"rule-level override unset/false/true; " +
 		"rule-level user_id/password resp. subject per position), one rule per chain on its own route of one fx-assembled decision service (real MechanismFactory, real rule factory, " +
-		"header finalizer echoing the subject). Requests per chain from a credential catalogue (none; Authorization with a foreign scheme; per type valid / well-formed invalid / " +
-		"endpoint failing (incl. issuers that make the templated endpoint url unusable) / malformed; credentials of a foreign kind; two credentials at once; every configured " +
+		"header finalizer echoing the subject) and of one fx-assembled Envoy ext_authz gRPC decision service with the same prototypes and rules; every request is presented to both " +
+		"entry points (CheckRequest: lower-case header names, path/query in separate fields, body as text or bytes). Requests per chain from a credential catalogue (none; Authorization with a foreign scheme; per type valid / well-formed invalid / " +
+		"endpoint failing (incl. issuers that make the templated endpoint url unusable) / malformed; correctly signed JWTs without iss / with an iss that is not a string, " +
+		"reference tokens for issuer-templated endpoints; credentials of a foreign kind; two credentials at once; every configured " +
 		"location header/query/cookie/body; one or several blanks between scheme and credentials; body credentials form or JSON encoded with Content-Type spellings: " +
-		"parameters, parameter casing, malformed parameters, header sent twice, other casing of the media type). Oracle: documentation-based " +
+		"parameters, parameter casing, malformed parameters, header sent twice, other casing of the media type; credential-free noise: an unparsable unrelated query parameter, " +
+		"the credential cookie repeated empty, an unrelated malformed cookie pair before/after the credential cookies). Oracle: documentation-based " +
 		"3-way classification per authenticator + chain semantics of the statement; compared with status, echoed subject and the recorded sequence of executed authenticators. " +
 		"A case is non-trivial when the model makes at least one fallback decision (an authenticator that does not accept is followed by another one).")
-	r.Assume("test JWKS/introspection/identity endpoints are loopback httptest servers answering as a function of the received credential",
+	r.Assume("a cookie pair that is not well-formed (RFC 6265) does not hide the well-formed pairs of the same Cookie header (net/http's Request.Cookie, which both entry points use, skips it)",
+		"an issuer-templated introspection/JWKS endpoint exists for the issuer of the installation only; a bearer token that names no issuer was found and cannot be validated (never: no credentials)",
+		"the Envoy client of the kit carries one value per header name: of a Content-Type sent twice the first line",
+		"test JWKS/introspection/identity endpoints are loopback httptest servers answering as a function of the received credential",
 		"the introspection test server reports valid JWTs as active (it stands for the issuer of these tokens), everything unknown as inactive",
 		"an HTTP answer 200 of the decision service = authenticated; any other status = authentication failed (401/5xx not distinguished by the statement)",
 		"credential shapes the statement leaves open (undecodable/unstructured Basic value, non-JWT for jwt, blank value) are only required never to be accepted by that authenticator",
@@ -369,13 +442,23 @@ func TestC04(t *testing.T) {
 		r.End()
 	}
 	defer a.Stop()
+	// the same prototypes and rules behind the second entry point
+	eprobes := app.NewProbes()
+	ea, err := app.New(app.Options{Service: app.SvcGRPC, Probes: eprobes, Mutate: func(c *config.Configuration) { prototypes(c, srv.url()) }})
+	if err != nil {
+		r.Inconclusive("cannot assemble envoy grpc decision service: " + err.Error())
+		r.End()
+	}
+	defer ea.Stop()
 	rs := &rconfig.RuleSet{Version: "1alpha4", Name: "c04", MetaData: rconfig.MetaData{Source: "c04", Hash: []byte("c04")}}
 	for _, c := range chains {
 		rs.Rules = append(rs.Rules, c.rule())
 	}
-	if err := a.Proc.OnCreated(rs); err != nil {
-		r.Inconclusive("real rule factory rejected the generated rule set: " + err.Error())
-		r.End()
+	for _, x := range []*app.App{a, ea} {
+		if err := x.Proc.OnCreated(rs); err != nil {
+			r.Inconclusive("real rule factory rejected the generated rule set: " + err.Error())
+			r.End()
+		}
 	}
 	r.Set("chains", len(chains))
 	r.Set("requests_per_chain_target", nReq)
@@ -392,11 +475,18 @@ func TestC04(t *testing.T) {
 				CheckRedirect: func(*http.Request, []*http.Request) error { return http.ErrUseLastResponse },
 				Transport:     &http.Transport{MaxIdleConnsPerHost: 4, DisableCompression: true, DialContext: (&net.Dialer{Timeout: 3 * time.Second}).DialContext}}
 			defer cl.CloseIdleConnections()
+			eps := []entry{{entryHTTP, func(w wire) observed { return send(cl, a, probes, w) }}}
+			if ev, err := app.NewEnvoy(ea.Addr()); err != nil {
+				r.Inconclusive("cannot create envoy client: " + err.Error())
+			} else {
+				defer ev.Close()
+				eps = append(eps, entry{entryEnvoy, func(w wire) observed { return sendEnvoy(ev, eprobes, w) }})
+			}
 			for c := range ch {
 				typeChainsSeen.Store(c.typeKey(), true)
 				g := &reqGen{rng: r.Stream("req|" + c.key()), m: mt}
 				for _, lr := range g.requests(c, nReq) {
-					runCase(r, st, cl, a, probes, c, lr)
+					runCase(r, st, eps, c, lr)
 				}
 			}
 		}()
@@ -418,7 +508,7 @@ func TestC04(t *testing.T) {
 		sort.Strings(cls[heimdallType[t]])
 	}
 	r.Set("credential_classes_seen_per_type", cls)
-	r.Set("endpoint_calls", map[string]int64{"jwks": srv.calls.jwks.Load(), "introspection": srv.calls.introspect.Load(), "identity": srv.calls.identity.Load(), "metadata": srv.calls.metadata.Load()})
+	r.Set("endpoint_calls", map[string]int64{"jwks": srv.calls.jwks.Load(), "introspection": srv.calls.introspect.Load(), "introspection_per_tenant": srv.calls.introspectTenant.Load(), "identity": srv.calls.identity.Load(), "metadata": srv.calls.metadata.Load()})
 
 	total := r.Counter("answer_authenticated") + r.Counter("answer_failed")
 	r.Count("requests_with_chunked_body", int(chunkedBodies.Load()))
@@ -436,6 +526,17 @@ func TestC04(t *testing.T) {
 		r.Require("body_credentials_with_other_content_type_"+v, r.Counter("body_credentials_with_other_content_type_"+v), 30)
 	}
 	r.Require("metadata_discovery_issuer_breaks_url", r.Counter("metadata_discovery_issuer_breaks_url"), 20)
+	r.Require("requests_"+entryEnvoy, r.Counter("requests_"+entryEnvoy), r.Counter("requests_"+entryHTTP))
+	for _, ep := range []string{entryHTTP, entryEnvoy} {
+		for _, v := range []string{"accept", "reject"} {
+			k := "cookie_credentials_beside_malformed_cookie_" + ep + "_" + v
+			r.Require(k, r.Counter(k), 15)
+		}
+	}
+	for _, k := range []string{"issuer_templated_endpoint_oauth2_introspection_token_without_issuer", "issuer_templated_endpoint_oauth2_introspection_token_with_issuer",
+		"issuer_templated_endpoint_jwt_token_without_issuer", "issuer_templated_endpoint_jwt_token_with_issuer"} {
+		r.Require(k, r.Counter(k), 10)
+	}
 	for _, t := range []string{"basic", "jwt", "intro", "gen"} {
 		for _, v := range []string{"none", "accept", "reject"} {
 			r.Require("oracle_"+heimdallType[t]+"_"+v, r.Counter("oracle_"+heimdallType[t]+"_"+v), 20)
@@ -444,10 +545,10 @@ func TestC04(t *testing.T) {
 	r.End()
 }
 
-func runCase(r *core.Run, st *stats, cl *http.Client, a *app.App, pr *app.Probes, c chain, lr lreq) {
+func runCase(r *core.Run, st *stats, eps []entry, c chain, lr lreq) {
 	w := lr.wire("/" + c.ID)
 	views, outs := model(c, lr)
-	o := send(cl, a, pr, w)
+	o := eps[0].send(w)
 
 	// bookkeeping over the model (first outcome = ambiguous steps read as "no credentials")
 	prim := outs[0]
@@ -532,36 +633,85 @@ func runCase(r *core.Run, st *stats, cl *http.Client, a *app.App, pr *app.Probes
 		}
 	}
 	r.Count(fmt.Sprintf("chain_length_%d", len(c.Elems)), 1)
-	if o.Status == http.StatusOK {
-		r.Count("answer_authenticated", 1)
-	} else {
-		r.Count("answer_failed", 1)
-		r.Count(fmt.Sprintf("status_%d", o.Status), 1)
+	for _, n := range w.Noise {
+		r.Count("noise_"+n, 1)
 	}
 	if len(o.Trace) > 1 {
 		r.Count("observed_runs_with_fallback", 1)
 	}
-	r.Case(c.key()+"|"+lr.shapeKey(), nontrivial)
-
-	mk := func() c04Case {
-		cs := c04Case{Rule: c.ID, Request: lr, Wire: w, Views: views, Allowed: outs, Observed: o}
-		for _, e := range c.Elems {
-			cs.Chain = append(cs.Chain, elemView{e, heimdallType[e.proto().Type], e.fallbackAllowed(), e.proto().FB, e.proto().Down})
+	// what a cookie credential accompanied by a malformed sibling pair is for the authenticator reading it
+	cookieBesideMalformed := func(ep string) {
+		if len(w.Noise) == 0 || w.Noise[0] != "malformed-sibling-cookie" {
+			return
 		}
-		return cs
+		for i := range prim.Executed {
+			if v := views[i]; v.Slot != "" && v.Slot[0] == 'C' {
+				r.Count("cookie_credentials_beside_malformed_cookie_"+ep+"_"+v.Verdict.String(), 1)
+			}
+		}
+	}
+	for i := range prim.Executed {
+		if p := c.Elems[i].proto(); p.Tpl != "" {
+			k, _, _ := strings.Cut(views[i].Seen, "-")
+			if views[i].Seen == "jwt-noiss" || views[i].Seen == "jwt-issnotstring" || k == "opaque" || k == "sess" || k == "junk" {
+				r.Count("issuer_templated_endpoint_"+heimdallType[p.Type]+"_token_without_issuer", 1)
+			} else if k == "jwt" {
+				r.Count("issuer_templated_endpoint_"+heimdallType[p.Type]+"_token_with_issuer", 1)
+			}
+		}
 	}
 	r.Sample(map[string]any{"chain": c.key(), "request": lr.shapeKey(), "allowed": outs, "observed": o})
 
-	if matchesAny(o, outs) {
-		return
-	}
-	sig, what := signature(c, views, outs, o)
-	if sig == "transport-error" {
-		r.Count("transport_errors", 1)
-		if r.Counter("transport_errors") > 5 {
-			r.Inconclusive("decision service did not answer: " + o.Transport)
+	var atHTTP *observed
+	for n, ep := range eps {
+		if n > 0 {
+			o = ep.send(w)
 		}
-		return
+		if o.Status == http.StatusOK {
+			r.Count("answer_authenticated", 1)
+		} else {
+			r.Count("answer_failed", 1)
+			r.Count(fmt.Sprintf("status_%d", o.Status), 1)
+		}
+		r.Count("requests_"+ep.Name, 1)
+		cookieBesideMalformed(ep.Name)
+		r.Case(ep.Name+"|"+c.key()+"|"+lr.shapeKey(), nontrivial)
+
+		ok := matchesAny(o, outs)
+		if ep.Name == entryHTTP {
+			x := o
+			atHTTP = &x
+		} else if ok == matchesAny(*atHTTP, outs) && o.Status == http.StatusOK == (atHTTP.Status == http.StatusOK) && o.Sub == atHTTP.Sub {
+			r.Count("entry_points_agree", 1)
+		}
+		if ok {
+			continue
+		}
+		sig, what := signature(c, views, outs, o)
+		if sig == "transport-error" {
+			r.Count("transport_errors", 1)
+			if r.Counter("transport_errors") > 5 {
+				r.Inconclusive(ep.Name + " did not answer: " + o.Transport)
+			}
+			continue
+		}
+		cs := c04Case{Rule: c.ID, Request: lr, Wire: w, Views: views, Allowed: outs, Entry: ep.Name, Observed: o}
+		for _, e := range c.Elems {
+			cs.Chain = append(cs.Chain, elemView{e, heimdallType[e.proto().Type], e.fallbackAllowed(), e.proto().FB, e.proto().Down})
+		}
+		if ep.Name != entryHTTP {
+			cs.OtherEntry = atHTTP
+			if matchesAny(*atHTTP, outs) {
+				sig += ":" + ep.Name + "-only" // the HTTP decision service behaves as the statement says for this request
+			}
+		}
+		r.Violation(sig, fmt.Sprintf("%s: chain %s, request %s%s: %s (status %d, subject %q, ran %v)", ep.Name, c.key(), lr.shapeKey(), noiseNote(w), what, o.Status, o.Sub, o.ids()), cs)
 	}
-	r.Violation(sig, fmt.Sprintf("chain %s, request %s: %s (status %d, subject %q, ran %v)", c.key(), lr.shapeKey(), what, o.Status, o.Sub, o.ids()), mk())
+}
+
+func noiseNote(w wire) string {
+	if len(w.Noise) == 0 {
+		return ""
+	}
+	return " + " + strings.Join(w.Noise, ", ")
 }
